@@ -12,6 +12,7 @@
 #include "mp/nl-reader.h"
 
 #include "io_common.h"
+#include "nlops.h"
 
 namespace iosim {
 
@@ -71,24 +72,29 @@ class RecHandler {
              hd.num_algebraic_cons, hd.num_objs, hd.num_logical_cons, hd.num_funcs, n_cexprs, (int)hd.arith_kind, hd.flags,
              hd.num_ampl_options);
     note(b);
-    if (want_items) {
-      std::string s = b;
-      s += " nlc=" + std::to_string(hd.num_nl_cons) + " nlo=" + std::to_string(hd.num_nl_objs) +
-           " rng=" + std::to_string(hd.num_ranges) + " eq=" + std::to_string(hd.num_eqns) +
-           " cc=" + std::to_string(hd.num_compl_conds) + "," + std::to_string(hd.num_nl_compl_conds) + "," +
-           std::to_string(hd.num_compl_dbl_ineqs) + "," + std::to_string(hd.num_compl_vars_with_nz_lb) +
-           " net=" + std::to_string(hd.num_nl_net_cons) + "," + std::to_string(hd.num_linear_net_cons) + "," + std::to_string(hd.num_linear_net_vars) +
-           " nlv=" + std::to_string(hd.num_nl_vars_in_cons) + "," + std::to_string(hd.num_nl_vars_in_objs) + "," + std::to_string(hd.num_nl_vars_in_both) +
-           " int=" + std::to_string(hd.num_linear_binary_vars) + "," + std::to_string(hd.num_linear_integer_vars) + "," +
-           std::to_string(hd.num_nl_integer_vars_in_both) + "," + std::to_string(hd.num_nl_integer_vars_in_cons) + "," + std::to_string(hd.num_nl_integer_vars_in_objs) +
-           " nz=" + std::to_string(hd.num_con_nonzeros) + "," + std::to_string(hd.num_obj_nonzeros) +
-           " ces=" + std::to_string(hd.num_common_exprs_in_both) + "," + std::to_string(hd.num_common_exprs_in_cons) + "," +
-           std::to_string(hd.num_common_exprs_in_objs) + "," + std::to_string(hd.num_common_exprs_in_single_cons) + "," + std::to_string(hd.num_common_exprs_in_single_objs);
-      s += " opts=";
-      for (int i = 0; i < hd.num_ampl_options && i < mp::MAX_AMPL_OPTIONS; ++i) s += std::to_string(hd.ampl_options[i]) + ",";
-      if (hd.num_ampl_options >= 2 && hd.ampl_options[1] == 3) s += " vbtol=" + dbl_canon(hd.ampl_vbtol, norm_zero);
-      items["HDR"] = s;
-    }
+    if (want_items) items["HDR"] = header_item(hd, norm_zero);
+  }
+
+  // canonical text of everything in the header except the encoding (format, arith kind)
+  static std::string header_item(const mp::NLHeader& hd, bool nz) {
+    std::string s = "v=" + std::to_string(hd.num_vars) + " c=" + std::to_string(hd.num_algebraic_cons) + " o=" + std::to_string(hd.num_objs) +
+        " l=" + std::to_string(hd.num_logical_cons) + " fn=" + std::to_string(hd.num_funcs) + " fl=" + std::to_string(hd.flags) +
+        " nlc=" + std::to_string(hd.num_nl_cons) + " nlo=" + std::to_string(hd.num_nl_objs) +
+        " rng=" + std::to_string(hd.num_ranges) + " eq=" + std::to_string(hd.num_eqns) +
+        " cc=" + std::to_string(hd.num_compl_conds) + "," + std::to_string(hd.num_nl_compl_conds) + "," +
+        std::to_string(hd.num_compl_dbl_ineqs) + "," + std::to_string(hd.num_compl_vars_with_nz_lb) +
+        " net=" + std::to_string(hd.num_nl_net_cons) + "," + std::to_string(hd.num_linear_net_cons) + "," + std::to_string(hd.num_linear_net_vars) +
+        " nlv=" + std::to_string(hd.num_nl_vars_in_cons) + "," + std::to_string(hd.num_nl_vars_in_objs) + "," + std::to_string(hd.num_nl_vars_in_both) +
+        " int=" + std::to_string(hd.num_linear_binary_vars) + "," + std::to_string(hd.num_linear_integer_vars) + "," +
+        std::to_string(hd.num_nl_integer_vars_in_both) + "," + std::to_string(hd.num_nl_integer_vars_in_cons) + "," + std::to_string(hd.num_nl_integer_vars_in_objs) +
+        " nz=" + std::to_string(hd.num_con_nonzeros) + "," + std::to_string(hd.num_obj_nonzeros) +
+        " names=" + std::to_string(hd.max_con_name_len) + "," + std::to_string(hd.max_var_name_len) +
+        " ces=" + std::to_string(hd.num_common_exprs_in_both) + "," + std::to_string(hd.num_common_exprs_in_cons) + "," +
+        std::to_string(hd.num_common_exprs_in_objs) + "," + std::to_string(hd.num_common_exprs_in_single_cons) + "," + std::to_string(hd.num_common_exprs_in_single_objs);
+    s += " opts=" + std::to_string(hd.num_ampl_options) + ":";
+    for (int i = 0; i < hd.num_ampl_options && i < mp::MAX_AMPL_OPTIONS; ++i) s += std::to_string(hd.ampl_options[i]) + ",";
+    if (hd.num_ampl_options >= 2 && hd.ampl_options[1] == 3) s += " vbtol=" + dbl_canon(hd.ampl_vbtol, nz);
+    return s;
   }
 
   bool NeedObj(int) const { return true; }
@@ -421,7 +427,6 @@ class RecHandler {
     else max = kind == 0 ? n_vars : kind == 1 ? n_acons + n_lcons : kind == 2 ? n_objs : 1;
     cnt(real ? "OnDblSuffix.num_values" : "OnIntSuffix.num_values", n, 1, max);
     std::string nm = sref(name);
-    if (nm.empty()) fail("BAD_VALUE", "OnSuffix.empty-name", "empty suffix name");
     note(std::string(real ? "SD " : "SI ") + nm + " " + std::to_string(kind) + " " + std::to_string(n));
     std::string item = "S" + std::to_string(kind) + (real ? "r:" : "i:") + nm;
     once(item.c_str(), 0);
@@ -444,7 +449,7 @@ class RecHandler {
   }
   ArgH begin_iter(const char* who, mp::expr::Kind k, int n, int min) {
     settle(who);
-    int op = mp::expr::nl_opcode(k);
+    int op = reader_opnum(k);
     if (n < min) fail("BAD_COUNT", std::string(who) + ".num_args", "n=" + std::to_string(n));
     note(std::string("B ") + std::to_string(op) + " " + std::to_string(n));
     return begin_frame(F_ARGS, n, "(o" + std::to_string(op));
@@ -492,7 +497,7 @@ class RecHandler {
   }
   E fixed(const char* who, mp::expr::Kind k, std::initializer_list<E> args) {
     settle(who);
-    int op = mp::expr::nl_opcode(k);
+    int op = reader_opnum(k);
     note(std::string("o ") + std::to_string(op));
     E nd = mk("(o" + std::to_string(op));
     for (E a : args) { expr_done(who, a); pool[nd.id].kids.push_back(a.id); }
